@@ -40,6 +40,19 @@ pub fn replay(v: &Value) -> i32 {
             let k = crate::amlobj::SIZED_KINDS.iter().position(|x| *x == kind).unwrap_or(0);
             let nv = r["name_variant"].as_u64().unwrap_or(0) as usize;
             let direct = r["direct_child"].as_bool().unwrap_or(false);
+            if let Some(h) = r["child_bytes"].as_str() {
+                let bytes: Vec<u8> = (0..h.len() / 2).filter_map(|i| u8::from_str_radix(&h[2 * i..2 * i + 2], 16).ok()).collect();
+                let child = crate::amlobj::Bytes(bytes);
+                match twice(|| catch(|| crate::amlobj::with_children(k, vec![&child as &dyn acpi_tables::Aml]))) {
+                    Some(Ok(b)) => {
+                        let ol = crate::amlobj::opcode_len(k);
+                        println!("{} with a child of bytes {}: {} bytes; {} follow the opcode; PkgLength {} decodes to {:?}", kind, h, b.len(), b.len() - ol, hex(&b[ol..(ol + 4).min(b.len())]), pkg_decode(&b[ol..]));
+                    }
+                    Some(Err(m)) => println!("{} with a child of bytes {} panicked: {}", kind, h, m),
+                    None => return 2,
+                }
+                return 0;
+            }
             if let Some(n) = r["children"].as_u64() {
                 let w = r["child_width"].as_u64().unwrap_or(1) as usize;
                 match twice(|| catch(|| crate::amlobj::sized_many(k, n as usize, w))) {
